@@ -347,6 +347,20 @@ pub fn all_seeds_with(radius2: bool) -> Vec<(String, Target, V, Vec<u8>)> {
             let bytes = t.bytes(&wire);
             out.push((format!("{}:{}", t.name(), label), t.clone(), wire, bytes));
         }
+        if b == 0x01 {
+            // the relying-party icon under its legacy key `url`
+            let mut wire = plan.build(plan.full_mask(), &[]);
+            if let Some(V::M(rp)) = crate::treewalk::get_mut(&mut wire, &[crate::treewalk::Step::Key(V::U(2))]) {
+                for (k, _) in rp.iter_mut() {
+                    if *k == V::t("icon") {
+                        *k = V::t("url");
+                    }
+                }
+            }
+            let wire = wire.canon();
+            let bytes = t.bytes(&wire);
+            out.push((format!("{}:full-with-legacy-url", t.name()), t.clone(), wire, bytes));
+        }
     }
     out
 }
